@@ -29,6 +29,10 @@ def main():
         from . import checks_functions
 
         return checks_functions.run(a.prop, a.tier, a.replay)
+    if a.prop == "C16":
+        from . import ws_commands
+
+        return ws_commands.run_c16(a.tier, a.replay)
     if a.prop == "C10":
         from . import checks_jobdir
 
